@@ -184,6 +184,20 @@ class PlanJoinTablesQuery:
             # resolve identifier
 
             table_info = self.resolve_table(node)
+
+            if table_info.integration is not None:
+                table_info.predictor_info = self.planner.get_predictor(node)
+
+            if (
+                    node.alias is None
+                    and table_info.predictor_info is not None
+                    and table_info.predictor_info.get('version') is not None
+            ):
+                # 'project.model.3' is a version of the model 'project.model':
+                #   its columns can be referenced as 'model.column' too, and that is its shortest name ('3' is not a name)
+                for i in range(0, len(node.parts) - 1):
+                    table_info.aliases.append(tuple(map(str.lower, node.parts[i:-1])))
+
             for alias in table_info.aliases:
                 if alias in self.tables_idx or alias in self.ambiguous_names:
                     # the name stands for two tables, for example the last part of 'int1.tab' and 'int2.tab'
@@ -194,9 +208,6 @@ class PlanJoinTablesQuery:
 
             table_info.index = len(self.tables)
             self.tables.append(table_info)
-
-            if table_info.integration is not None:
-                table_info.predictor_info = self.planner.get_predictor(node)
 
             if condition is not None:
                 table_info.join_condition = condition
